@@ -136,6 +136,8 @@ pub struct Ctx<'a> {
     pub tape: Option<Tape<'a>>,
     /// one-hot target: (leaf path, choice index)
     pub target: Option<(String, usize)>,
+    /// second target of a pairwise instance
+    pub target2: Option<(String, usize)>,
     pub mode_limit: usize,
     pub expects: Vec<Expect>,
     pub texts: Vec<TextRange>,
@@ -157,6 +159,11 @@ impl<'a> Ctx<'a> {
         if let Some((t, k)) = &self.target {
             if t == path {
                 return Pick::Nth(*k);
+            }
+            if let Some((t2, k2)) = &self.target2 {
+                if t2 == path {
+                    return Pick::Nth(*k2);
+                }
             }
             return Pick::Zero;
         }
@@ -187,9 +194,10 @@ fn join(prefix: &str, path: &str) -> String {
     }
 }
 
-const U8_CHOICES: [u64; 6] = [1, 2, 0x7f, 0x80, 0xff, 0x55];
-const U16_CHOICES: [u64; 6] = [1, 0x100, 0x7fff, 0x8000, 0xffff, 0x1234];
-const U32_CHOICES: [u64; 8] = [1, 0x100, 0x1_0000, 0x100_0000, 0x7fff_ffff, 0x8000_0000, 0xffff_ffff, 0x1234_5678];
+// every single bit, the usual edges, and the masks a special case might be keyed on (top two bits, nibbles, alternating bits)
+const U8_CHOICES: [u64; 19] = [1, 2, 0x7f, 0x80, 0xff, 0x55, 4, 8, 0x10, 0x20, 0x40, 0xc0, 0x3f, 0xaa, 0x0f, 0xf0, 0xfe, 3, 100];
+const U16_CHOICES: [u64; 11] = [1, 0x100, 0x7fff, 0x8000, 0xffff, 0x1234, 0xff, 0xff00, 0xfffe, 2, 1000];
+const U32_CHOICES: [u64; 12] = [1, 0x100, 0x1_0000, 0x100_0000, 0x7fff_ffff, 0x8000_0000, 0xffff_ffff, 0x1234_5678, 0xffff, 0xffff_fffe, 1000, 3_600_000];
 const F32_CHOICES: [u32; 8] = [0x3f80_0000, 0xbf80_0000, 0x3f00_0000, 0x7fc0_0000, 0x8000_0000, 1, 0x7f80_0000, 0x1234_5678];
 
 fn int_value(ctx: &mut Ctx, path: &str, bytes: usize, max: Option<u64>) -> u64 {
@@ -1102,6 +1110,7 @@ pub fn from_tape(p: &PacketSpec, mode: &Mode, tape: &[u8], allow_codepages: bool
     let mut ctx = Ctx {
         tape: Some(Tape::new(tape)),
         target: None,
+        target2: None,
         mode_limit: limit(mode),
         expects: vec![],
         texts: vec![],
@@ -1122,6 +1131,7 @@ pub fn targets(p: &PacketSpec) -> Vec<(String, usize)> {
     let mut ctx = Ctx {
         tape: None,
         target: None,
+        target2: None,
         mode_limit: 1020,
         expects: vec![],
         texts: vec![],
@@ -1137,11 +1147,33 @@ pub fn targets(p: &PacketSpec) -> Vec<(String, usize)> {
     ctx.collect.unwrap()
 }
 
+/// Build the instance where two leaves take chosen values at once and everything else is zero / first enumerant.
+pub fn two_hot(p: &PacketSpec, mode: &Mode, a: (&str, usize), b: (&str, usize)) -> Inst {
+    let mut ctx = Ctx {
+        tape: None,
+        target: Some((a.0.to_string(), a.1)),
+        target2: Some((b.0.to_string(), b.1)),
+        mode_limit: limit(mode),
+        expects: vec![],
+        texts: vec![],
+        encode_comparable: true,
+        label: vec![],
+        collect: None,
+        allow_codepages: true,
+        spans: vec![],
+    };
+    let g = Gen { spec: spec() };
+    let mut img = vec![0u8; 2];
+    g.fields(&mut ctx, &mut img, &p.fields, 0, "");
+    finish(p, mode, img, ctx)
+}
+
 /// Build the instance where leaf `path` takes its `k`-th choice and everything else is zero / first enumerant.
 pub fn one_hot(p: &PacketSpec, mode: &Mode, path: Option<(&str, usize)>) -> Inst {
     let mut ctx = Ctx {
         tape: None,
         target: Some(path.map(|(p, k)| (p.to_string(), k)).unwrap_or(("\u{0}none".into(), 0))),
+        target2: None,
         mode_limit: limit(mode),
         expects: vec![],
         texts: vec![],
